@@ -48,7 +48,9 @@ def plan_copy(w: World, op: dict) -> Plan:
     add_self = op.get("add_self")
     verdicts = op.get("verdicts")
     uidgen = UidGen(op["id"])
-    flavour = "typed" if smt.typed else "plain"
+    # copies are created with the class of the source tree (no id hook, no
+    # attribute forwarding)
+    flavour = {"hook": "plain", "fwd": "plain"}.get(smt.flavour, smt.flavour)
     res_model = MTree(flavour)
     trigger = "copy/" + ("tree" if is_tree else "node")
 
